@@ -5,7 +5,6 @@ mutually with tuples and the `Vec` zip) -/
 namespace Leptos.View
 open Leptos.Dom
 
-set_option maxHeartbeats 400000
 
 mutual
 theorem rebuild_spec (Good : List AttrVal → Prop) (hF : ∀ as, Good as → AttrsFresh as)
